@@ -28,3 +28,18 @@ func VerifNewUDPTunnelConn(r io.Reader, w io.Writer) VerifUDPTunnelConn {
 		tunnelStream: stream.NewStreamProcessor(r, w, context.Background()),
 	}
 }
+
+// VerifCreateTunnelRWC builds the tunnel side of a TCP relay exactly as handleTCPTargetTunnel does:
+// a stream processor over the tunnel connection, getTunnelReaderWriter, createTunnelRWC.
+func VerifCreateTunnelRWC(conn net.Conn) io.ReadWriteCloser {
+	sp := stream.NewStreamProcessor(conn, conn, context.Background())
+	r, w, ok := getTunnelReaderWriter(sp, conn, "verif", "c12")
+	if !ok {
+		return nil
+	}
+	rwc, ok := createTunnelRWC(r, w, sp, conn, "verif", "c12")
+	if !ok {
+		return nil
+	}
+	return rwc
+}
